@@ -202,8 +202,11 @@ def run(job, seed):
             # ... and the OLD default spelled differently (in parentheses,
             # with a trailing blank; '@' for the empty one): an override
             respelled = ['(%s)' % O, O + ' '] if O else ['@']
+            # ... and references to OTHER rules whose names merely begin
+            # with the new policy's name (real overrides, not the alias)
+            lookalike = ['rule:%s_any' % new1, 'not rule:%s_any' % new1]
             for c in ovr + alias_spellings(new1) + [O, N, 'role:%s' % new1] \
-                    + respelled:
+                    + respelled + lookalike:
                 if c not in old_choices:
                     old_choices.append(c)
         for end, new_ovr, old_ovr, loc, noise in itertools.product(
